@@ -68,6 +68,7 @@ def run(ctx):
                           'C15.R5', '%s:build_plan(opts.excludes, opts.delete)' % key, 'delete set requested only by --delete; excludes passed through',
                           '%s does not pass opts.excludes / opts.delete to build_plan unchanged' % key, term_loc(b, plans[0][0]))
     ctx.attempt(delete_sources, ctx, F, 'C15.R5')
+    ctx.attempt(plan_independent_of_dry_run, ctx, F, 'C15.R5')
     # bisync dry-run prints the plan it would apply
     b = F.body('bidir::run_bisync')
     fl = flow_of(b)
@@ -131,3 +132,47 @@ def delete_sources(ctx, F, rid):
         n += 1
     if n < 3:
         ctx.missing(rid, 'delete application sites (found %d, floor 3)' % n)
+
+
+def plan_independent_of_dry_run(ctx, F, rid):
+    """`bisync --dry-run` lists the plan a real run would apply only if both compute it from the same inputs: nothing that
+    reaches reconcile() (the two scans, the base, the trust flag) is computed on one side only of a test of the dry-run option."""
+    from rules.bisync import _both_sides
+    b = F.body('bidir::run_bisync')
+    if b is None:
+        return
+    fl = flow_of(b)
+    cfg = fl.cfg
+    recs = fl.calls_to('reconcile::reconcile')
+    if not recs:
+        return
+    sw = [(sb, st) for sb, st in switch_blocks_on(fl, lambda os_: bool(os_) and all(o.path[-1:] == ('dry_run',) for o in os_))]
+    n = 0
+    for rb, rt in recs:
+        # every block that defines (part of) an argument of reconcile
+        def_blocks = set()
+        work, seen = list(rt['args']), set()
+        while work and len(seen) < 400:
+            op = work.pop()
+            if op['k'] == 'const':
+                continue
+            for o in fl.origins(op, mut_calls=True):
+                k = (o.kind, str(o.key), o.bb)
+                if k in seen or o.bb is None:
+                    continue
+                seen.add(k)
+                def_blocks.add(o.bb)
+                if o.kind in ('call', 'mutcall'):
+                    work += [a for a in b.blocks[o.bb]['term'].get('args', []) if a['k'] != 'const']
+        for sb, st in sw:
+            if rb not in cfg.reach(sb):
+                continue
+            n += 1
+            succ = [x for x, _ in cfg.succ[sb] if b.blocks[x]['term']['k'] != 'unreachable']
+            some = set().union(*[cfg.reach(x) for x in succ]) if succ else set()
+            one_sided = (some - _both_sides(cfg, sb)) & def_blocks
+            ctx.check(not one_sided, rid, 'run_bisync:plan-inputs-independent-of-dry-run', 'what reaches reconcile() is computed the same way with and without --dry-run',
+                      'run_bisync computes an input of reconcile() (scan, base or trust flag) on one side only of a test of the dry-run option: the plan a dry run '
+                      'lists is not the plan the real run applies from the same state', term_loc(b, sorted(one_sided)[0]) if one_sided else term_loc(b, sb))
+    if n == 0:
+        ctx.ok(rid, 'run_bisync:plan-inputs-independent-of-dry-run', 'the dry-run option is not tested before reconcile()', term_loc(b, recs[0][0]))
